@@ -288,6 +288,10 @@ def make_utf8(chk, rng, idx):
         if len(r) > 22 and rng.random() < 0.3:
             r[rng.choice([5, 9, len(r) - 1])] = rng.choice(NONASCII)
     text = raw_text(rng, sy.hdr + sy.rows, rng.choice(['\n', '\r\n']), last_eol=True)
+    if idx % 3 == 0:
+        # round 8: "UTF-8 with signature" - the file starts with a byte-order mark (EF BB BF), as saved by Excel /
+        # Notepad; it is content of the first header cell like any other character and must come back
+        text = '\ufeff' + text
     with open(sy.path, 'w', newline='', encoding='utf-8') as f:
         f.write(text)
     sy.text_lf = text.replace('\r\n', '\n')
@@ -1182,7 +1186,8 @@ def run(chk):
                               observed=msg, expected='only fields 6,7,8,21 of the window rows differ')
     chk.direct('T2/T3-oracle(write_epw, non-ASCII UTF-8 cells)', nutf, nutf,
                'rural files whose LOCATION / COMMENTS / DESIGN CONDITIONS cells and unmodelled data columns hold '
-               'accented, CJK, astral, combining, no-break-space and BOM characters, written as UTF-8; the file '
+               'accented, CJK, astral, combining, no-break-space and BOM characters, written as UTF-8, every third file '
+               'with a byte-order mark as its first three bytes (UTF-8 with signature); the file '
                'written by the real write_epw is parsed as strict UTF-8 and judged by the T2/T3 oracle',
                mismatches=butf)
     # free text with characters that only SOME line splitters take for line ends
